@@ -36,12 +36,10 @@ def outcome(rv):
                 return x[1].rsplit('::', 1)[-1]
         return 'Err?'
     if rk == 'residual':
-        # `opt.ok_or(Error::X)?` : the error is the ok_or argument travelling through branch / from_residual
+        # the error value travels through branch / from_residual: `opt.ok_or(Error::X)?`, or `helper(..)?` with the helper inlined
         for x in walk(rv):
-            if x[0] == 'call' and isinstance(x[1], str) and x[1].endswith(('Option::<T>::ok_or', 'Option::<T>::ok_or_else')):
-                for y in walk(x[2][1]):
-                    if y[0] == 'agg' and y[1].startswith('raw::error::Error::'):
-                        return y[1].rsplit('::', 1)[-1]
+            if x[0] == 'agg' and x[1].startswith('raw::error::Error::'):
+                return x[1].rsplit('::', 1)[-1]
     return rk
 
 
